@@ -2,8 +2,8 @@ import Rivaas.Model.OpenAPIBuild
 /-
 C07 — the oracle: what the statement demands of a produced document, written on the document itself
 (`Doc Schema`, the structured reading of the produced JSON) and on the operations handed in. It does not
-mention the generator. (The data types `Doc`, `Tree`, `OpIn` are shared with the model; no model
-*function* is used here except the text helpers of OpenAPIText.)
+mention the generator. (The data types `Doc`, `Tree`, `OpIn`, `Version`, `Sc` are shared with the model;
+no model *function* is used here except the text helpers of OpenAPIText.)
 
   refsClosed     every `$ref` is `#/components/schemas/<token>` and resolves (JSON pointer) to a component
   pathParamsOK   every `:name` of a route is `{name}` in the path key and exactly one required path parameter
@@ -153,8 +153,15 @@ def locs : List B := [s "query", s "header", s "path", s "cookie"]
 def wfParam (v : Version) (p : Param Schema) : Bool :=
   !p.name.isEmpty && locs.contains p.loc && (p.loc != s "path" || p.required) && wfSchema v p.schema
 
+/-- a key of the Responses Object: `default` or `^[1-5](?:\d{2}|XX)$` (transcribed from the meta-schemas) -/
+def specCodeOK (c : B) : Bool :=
+  c = s "default" ||
+  (c.length == 3 &&
+   (match c.head? with | some a => '1' ≤ a && a ≤ '5' | none => false) &&
+   (((c.drop 1).all fun d => '0' ≤ d && d ≤ '9') || c.drop 1 = ['X', 'X']))
+
 def wfResp (v : Version) (r : Resp Schema) : Bool :=
-  validResponseCode r.code && !r.description.isEmpty && (match r.schema with | some x => wfSchema v x | none => true)
+  specCodeOK r.code && !r.description.isEmpty && (match r.schema with | some x => wfSchema v x | none => true)
 
 def nodupPairs : List (B × B) → Bool
   | [] => true
